@@ -2,7 +2,7 @@
 import wlcheck
 
 PID = 'C01'
-TAGS = set('get,snapget,step,inv,mem,recover'.split(','))
+TAGS = set('get,snapget,step,inv,mem,recover,droploop,csnap'.split(','))
 THEOREMS = [
     'Lcdb.C01.get_eq_view',
     'Lcdb.C01.getEntry_eq_newestVisible',
@@ -17,9 +17,22 @@ THEOREMS = [
     'Lcdb.C06.history_refines',
     'Lcdb.C06.background_preserves_view',
     'Lcdb.C14.step_preserves_inv',
+    'Lcdb.Compaction.mergeInputs_sorted_perm',
+    'Lcdb.Compaction.mergeInputs_eq_mergedRun',
+    'Lcdb.Compaction.inputIter_walks_mergeInputs',
+    'Lcdb.Compaction.dropLoop_sublist',
+    'Lcdb.Compaction.dropLoopPtr_eq_dropLoop',
+    'Lcdb.Compaction.expectedOutput_eq_spec',
+    'Lcdb.Compaction.dropLoop_sameAnswer',
+    'Lcdb.Compaction.dropLoop_not_newer',
+    'Lcdb.Compaction.expectedOutput_sameAnswer',
+    'Lcdb.Compaction.expectedOutput_meets_contract',
+    'Lcdb.Compaction.mechanism_stepOk',
+    'Lcdb.Compaction.mechanism_preserves_view',
+    'Lcdb.Compaction.dropLoop_not_safe_below_smallest',
 ]
-IMPORTS = ['LcdbModel.Props.C01', 'LcdbModel.Props.C06']
-TARGETS = ['LcdbModel.Props.C01', 'LcdbModel.Props.C06']
+IMPORTS = ['LcdbModel.Props.CompactionProps', 'LcdbModel.Props.C01', 'LcdbModel.Props.C06']
+TARGETS = ['LcdbModel.Props.CompactionProps', 'LcdbModel.Props.C01', 'LcdbModel.Props.C06']
 
 
 def run(tier):
